@@ -38,6 +38,9 @@ type Disk struct {
 	// OnWrite, if set, is called (with the lock held) after every applied entry with the
 	// new log length; used for monitors. Must not call back into the disk.
 	OnWrite func(n int)
+	// FailAfter = k makes the k-th write from now fail once with an error (a transient disk
+	// error: nothing is applied for that write, later writes succeed); 0 = off.
+	FailAfter int
 	// CrashMatch, when set, places a crash at the first write touching a key it accepts:
 	// before the write (lost) when CrashMatchBefore is set, right after it (durable) otherwise.
 	CrashMatch       func(key string) bool
@@ -64,6 +67,12 @@ func (d *Disk) apply(e Entry) error {
 	if d.FailNext > 0 {
 		d.FailNext--
 		return errors.New("simdisk: injected write error")
+	}
+	if d.FailAfter > 0 {
+		d.FailAfter--
+		if d.FailAfter == 0 {
+			return errors.New("simdisk: injected write error")
+		}
 	}
 	if d.frozen {
 		d.Swallowed++
